@@ -225,6 +225,15 @@ pub struct WorkerReq {
     pub end: u64,
 }
 
+/// development aid: VERIF_GROUPS=a,b restricts a run to the groups whose name contains a or b
+/// (never set by the registered commands)
+fn group_selected(name: &str) -> bool {
+    match std::env::var("VERIF_GROUPS") {
+        Ok(v) if !v.is_empty() => v.split(',').any(|p| name.contains(p)),
+        _ => true,
+    }
+}
+
 #[derive(Default)]
 struct GroupStats {
     evaluations: u64,
@@ -372,7 +381,7 @@ impl Ctx {
     where
         F: Fn(&mut Tape, &mut Rec) -> CaseResult + Sync,
     {
-        if self.stop_all.load(Ordering::Relaxed) || self.worker.is_some() {
+        if self.stop_all.load(Ordering::Relaxed) || self.worker.is_some() || !group_selected(name) {
             return;
         }
         if let Some(rp) = &self.replay {
@@ -488,6 +497,9 @@ impl Ctx {
     where
         F: Fn(&mut Tape, &mut Rec) -> CaseResult + Sync + Send,
     {
+        if self.worker.is_none() && self.replay.is_none() && !group_selected(name) {
+            return;
+        }
         const STACK: usize = 2 << 20;
         let (n, tape_len, indexed) = match source {
             Source::Random { n, tape_len } => (n, tape_len, false),
